@@ -22,7 +22,7 @@ def gen_case(rng, n_steps, trace):
     symbols.append({'name': 'g', 'sort': S, 'inputs': [S, S], 'attrs': ['functional', 'constructor']})
     symbols.append({'name': 'cell', 'sort': S, 'inputs': [S], 'attrs': ['functional', 'constructor', 'cell']})
     if len(sorts) > 1:
-        symbols.append({'name': 'inj', 'sort': '$To', 'params': ['From', 'To'], 'inputs': ['$From'], 'attrs': []})
+        symbols.append({'name': 'inj', 'sort': '$To', 'params': ['From', 'To'], 'inputs': ['$From'], 'attrs': ['functional']})
         symbols.append({'name': 'k1', 'sort': 'S1', 'attrs': ['functional', 'constructor']})
 
     def ground(d):
@@ -31,8 +31,10 @@ def gen_case(rng, n_steps, trace):
         k = rng.random()
         if k < 0.4:
             return app('f', ground(d - 1))
-        if k < 0.8:
+        if k < 0.75:
             return app('g', ground(d - 1), ground(d - 1))
+        if k < 0.87 and len(sorts) > 1:       # parametric symbol inj{S1, S0}(k1)
+            return app('inj', app('k1'), sorts=['S1', 'S0'])
         return app('cell', ground(d - 1))
 
     def open_term(d, vs):
@@ -41,8 +43,10 @@ def gen_case(rng, n_steps, trace):
         k = rng.random()
         if k < 0.4:
             return app('f', open_term(d - 1, vs))
-        if k < 0.8:
+        if k < 0.75:
             return app('g', open_term(d - 1, vs), open_term(d - 1, vs))
+        if k < 0.87 and len(sorts) > 1:
+            return app('inj', app('k1'), sorts=['S1', 'S0'])
         return app('cell', open_term(d - 1, vs))
 
     def vars_of(t):
@@ -109,7 +113,7 @@ def kmatch(pat, t, sg):
             return sg if sg[pat['name']] == t else None
         sg = dict(sg); sg[pat['name']] = t
         return sg
-    if t['k'] != 'app' or pat['sym'] != t['sym'] or len(pat.get('args', [])) != len(t.get('args', [])):
+    if t['k'] != 'app' or pat['sym'] != t['sym'] or len(pat.get('args', [])) != len(t.get('args', [])) or pat.get('sorts') != t.get('sorts'):
         return None
     for a, b in zip(pat.get('args', []), t.get('args', [])):
         sg = kmatch(a, b, sg)
